@@ -632,6 +632,11 @@ fn expand_brace_range(tokens: &mut types::Tokens) {
 
         // safe to unwrap here, since the `is_match` above already validated
         let caps = re.captures(token).unwrap();
+        // keep the text around the braces: `a{1..3}b` -> a1b a2b a3b
+        let (head, tail) = match caps.get(0) {
+            Some(m) => (&token[..m.start()], &token[m.end()..]),
+            None => ("", ""),
+        };
 
         let start = match caps[1].to_string().parse::<i32>() {
             Ok(x) => x,
@@ -671,12 +676,12 @@ fn expand_brace_range(tokens: &mut types::Tokens) {
         let mut n = i64::from(start);
         if n > end {
             while n >= end {
-                result.push(format!("{}", n));
+                result.push(format!("{}{}{}", head, n, tail));
                 n -= incr;
             }
         } else {
             while n <= end {
-                result.push(format!("{}", n));
+                result.push(format!("{}{}{}", head, n, tail));
                 n += incr;
             }
         }
